@@ -51,7 +51,8 @@ FORMS = {
 }
 
 
-def make_trace(directed, removal, calls, labeling="int", forks=None, fork_at=None, rng=None, known=None, grid=None):
+def make_trace(directed, removal, calls, labeling="int", forks=None, fork_at=None, rng=None, known=None, grid=None,
+               ret_obj=False):
     """Apply `calls` to a fresh graph, one observed line per call.
 
     forks: calls applied (each on its own deep copy) to the final state, or to
@@ -78,6 +79,8 @@ def make_trace(directed, removal, calls, labeling="int", forks=None, fork_at=Non
         line = dict(c)
         line.update(fork=True, res=res, form=form, obs=core.observe(h, L, known, grid))
         lines.append(line)
+    if ret_obj:
+        return lines, g, L, known, grid
     return lines
 
 
